@@ -607,13 +607,15 @@ func fix128BigIntToUFix64(
 	bigInt *big.Int,
 ) UFix64Value {
 
-	if bigInt.Cmp(fixedpoint.UFix64TypeMaxScaledTo128) > 0 {
-		panic(&OverflowError{})
-	} else if bigInt.Cmp(fixedpoint.UFix64TypeMinScaledTo128) < 0 {
-		panic(&UnderflowError{})
-	}
+	// Truncate the excess fractional digits toward zero (Quo, unlike Div, truncates),
+	// then check the range of the truncated value.
+	bigInt = new(big.Int).Quo(bigInt, fixedpoint.Fix64ToFix128FactorAsBigInt)
 
-	bigInt = bigInt.Div(bigInt, fixedpoint.Fix64ToFix128FactorAsBigInt)
+	if bigInt.Sign() < 0 {
+		panic(&UnderflowError{})
+	} else if !bigInt.IsUint64() {
+		panic(&OverflowError{})
+	}
 
 	return NewUFix64Value(
 		memoryGauge,
